@@ -28,7 +28,7 @@ import (
 func init() {
 	core.Register(&core.Check{
 		ID: "C13", World: "P (publication)", Level: "exploration",
-		Rule: "one evaluation = one seeded history of up to 15 endorse runs over a pool of 2-4 images x 2-4 candidate names (incl. the default and one with a directory separator) x overwrite on/off x snapshot directory none/set, through SimVCS (library and cobra command) and through localnonvcs on a scratch directory, where a run may also lose its k-th file write (the files before it are written: the back end is not atomic); the manifest predicates are evaluated after EVERY run on the files visible through the back end; " +
+		Rule: "one evaluation = one seeded history of up to 15 endorse runs over a pool of 2-4 images x 2-4 candidate names (incl. the default and one with a directory separator) x overwrite on/off x snapshot directory none/set, through SimVCS (library, with a fresh or one long-lived endorse.Context, and cobra command) and through localnonvcs on a scratch directory, where a run may also lose its k-th file write or have its k-th read fail with an I/O error (the files before it are written: the back end is not atomic); the manifest predicates are evaluated after EVERY run on the files visible through the back end; " +
 			"non-trivial = at least 2 runs changed the repository; distinct by the sequence of abstract manifest states (set of (digest#, path))",
 		Assumptions: []string{
 			"SimVCS runs are fault-free (commit faults are C14's subject); runs may fail legitimately (existing file without --overwrite); on localnonvcs a run without --overwrite that loses a write must leave the manifest faithful, a run WITH --overwrite that loses a write ends the history unjudged (replace-then-fail cannot be consistent without atomic commits)",
@@ -79,6 +79,10 @@ type partialVCS struct {
 	failAt  int
 	written int
 	fired   bool
+	// failReadAt: the k-th ReadFile of the run fails with an I/O error that is NOT "not found"
+	failReadAt int
+	reads      int
+	readFired  bool
 }
 
 type partialOps struct {
@@ -92,6 +96,18 @@ func (p *partialVCS) GetChangeOps(ctx context.Context) (endorse.ChangeOps, error
 		return nil, err
 	}
 	return &partialOps{ops, p}, nil
+}
+
+func (o *partialOps) ReadFile(ctx context.Context, path string) ([]byte, error) {
+	p := o.p
+	k := p.reads
+	p.reads++
+	if p.failReadAt >= 0 && k == p.failReadAt {
+		p.readFired = true
+		p.r.Fault("read-error", "read %d of the run: %s", k, filepath.Base(path))
+		return nil, fmt.Errorf("simulated storage failure reading %s: input/output error", path)
+	}
+	return o.ChangeOps.ReadFile(ctx, path)
 }
 
 func (o *partialOps) WriteOrCreateFiles(ctx context.Context, files ...*endorse.File) error {
@@ -206,7 +222,7 @@ func runC13(r *core.Run) {
 	default:
 		d := filepath.Join(scratch, "repo")
 		os.MkdirAll(d, 0o755)
-		partial = &partialVCS{VersionControl: &localnonvcs.T{Root: d}, r: r, failAt: -1}
+		partial = &partialVCS{VersionControl: &localnonvcs.T{Root: d}, r: r, failAt: -1, failReadAt: -1}
 		view = dirView{partial, d}
 	}
 	pool := images.Small()[:2+r.Intn(3, "pool-size")]
@@ -218,6 +234,11 @@ func runC13(r *core.Run) {
 		n = 10
 	}
 	outPath := path.Join(view.root(), "out")
+	longLived := r.Chance(30, "long-lived-context?")
+	var sharedCtx *endorse.Context
+	if longLived {
+		r.Probe("long-lived-context")
+	}
 	var hist []string
 	changed := 0
 	seq := ""
@@ -238,11 +259,21 @@ func runC13(r *core.Run) {
 		if r.Chance(20, "snapshot?") {
 			q.SnapshotDir = "snap"
 		}
+		if longLived && !q.ViaCLI {
+			// one long-lived endorse.Context serves every run of the history
+			if sharedCtx == nil {
+				sharedCtx = BuildContext(view.vcs(), q)
+			}
+			q.Reuse = sharedCtx
+		}
 		before := view.files()
 		if partial != nil {
 			partial.failAt, partial.written, partial.fired = -1, 0, false
+			partial.failReadAt, partial.reads, partial.readFired = -1, 0, false
 			if r.Chance(20, "partial-write?") {
 				partial.failAt = r.Intn(4, "fail-at-file")
+			} else if r.Chance(15, "read-error?") {
+				partial.failReadAt = r.Intn(3, "fail-at-read")
 			}
 		}
 		_, err := Endorse(r, a, view.vcs(), q, scratch)
